@@ -31,7 +31,10 @@ impl Rng {
     pub fn fork(&mut self) -> Rng { Rng(self.next()) }
 }
 
-pub fn hx(x: f64) -> String { format!("{:016x}", x.to_bits()) }
+/// bit pattern with every NaN mapped to the canonical quiet NaN (Lean's `Float` does not
+/// distinguish NaN payloads or signs, so they are never compared)
+pub fn cbits(x: f64) -> u64 { if x.is_nan() { 0x7ff8_0000_0000_0000 } else { x.to_bits() } }
+pub fn hx(x: f64) -> String { format!("{:016x}", cbits(x)) }
 pub fn unhx(s: &str) -> f64 { f64::from_bits(u64::from_str_radix(s, 16).unwrap_or(0x7ff8_0000_0000_0000)) }
 
 pub const HASH0: u64 = 14695981039346656037;
@@ -63,7 +66,7 @@ pub fn run_driver(drv: &str, requests: &[String]) -> Vec<String> {
 
 /// Run the driver in parallel chunks (the driver is single threaded).
 pub fn run_driver_par(drv: &str, requests: &[String], jobs: usize) -> Vec<String> {
-    if requests.len() < 64 || jobs <= 1 { return run_driver(drv, requests); }
+    if requests.len() < 4 || jobs <= 1 { return run_driver(drv, requests); }
     let chunk = (requests.len() + jobs - 1) / jobs;
     let mut handles = vec![];
     for c in requests.chunks(chunk) {
